@@ -60,6 +60,7 @@ type partial struct {
 	Violations  []violation      `json:"violations"`
 	Samples     []interface{}    `json:"samples"`
 	Failure     string           `json:"machinery_failure,omitempty"`
+	Failures    []string         `json:"machinery_failures,omitempty"`
 	PerScenario []string         `json:"per_scenario,omitempty"`
 }
 
@@ -142,7 +143,13 @@ func worker(p *Prop, shard string) {
 			}
 			sc.Deadline = time.Now().Add(left / time.Duration(len(mine)-i))
 		}
-		st, f := mcrt.Explore(sc)
+		st, f, mf := exploreGuarded(sc)
+		if mf != "" {
+			// the scheduler lost control of this scenario: not a verdict; the
+			// other scenarios still run
+			out.Failures = append(out.Failures, sc.Name+": "+mf)
+			continue
+		}
 		out.Scenarios++
 		out.Executions += st.Executions
 		out.Points += st.Points
@@ -325,6 +332,7 @@ func coordinate(p *Prop) int {
 		if q.Failure != "" {
 			machinery = append(machinery, q.Failure)
 		}
+		machinery = append(machinery, q.Failures...)
 		for _, v := range q.Violations {
 			r.Violate(ev.Violation{Fingerprint: p.ID + " " + v.Kind, What: v.Kind + ": " + v.Detail,
 				Case:       map[string]interface{}{"scenario": v.Scenario, "choices": v.Choices, "trace": v.Trace, "data": v.Data},
@@ -333,8 +341,16 @@ func coordinate(p *Prop) int {
 	}
 	if len(machinery) > 0 {
 		sort.Strings(machinery)
+		if len(machinery) > 12 {
+			machinery = append(machinery[:12], fmt.Sprintf("... and %d more", len(machinery)-12))
+		}
 		fmt.Fprintf(os.Stderr, "MACHINERY FAILURE (not a verdict) in %s:\n  %s\n", p.ID, strings.Join(machinery, "\n  "))
-		return 2
+		if r.NViolations() == 0 {
+			return 2
+		}
+		// a confirmed, replayable violation found in another scenario stands
+		fmt.Fprintf(os.Stderr, "(violations found in other scenarios are reported below)\n")
+		r.Cap("scenarios dropped because the scheduler lost control of them: " + strings.Join(machinery, "; "))
 	}
 	if total.MinBound == 1<<30 {
 		total.MinBound = -1
@@ -482,4 +498,19 @@ func auxRace(p *Prop, r *ev.Run) {
 	default:
 		r.Extra["auxiliary_race_pass"] = "auxiliary, sampled, NOT part of the coverage claim: " + strings.TrimSpace(text)
 	}
+}
+
+// exploreGuarded runs one scenario and turns a loss of control into a string.
+func exploreGuarded(sc *mcrt.Scenario) (st *mcrt.Stats, f *mcrt.Failure, failure string) {
+	defer func() {
+		if x := recover(); x != nil {
+			if mf, ok := x.(mcrt.MachineryFailure); ok {
+				failure = string(mf)
+				return
+			}
+			panic(x)
+		}
+	}()
+	st, f = mcrt.Explore(sc)
+	return
 }
